@@ -93,6 +93,8 @@ class DeliveryMonitor(Monitor):
         sc = self.run.scenario
         pr = self.res.probes
         # per strategy: what it saw vs. what the data + filters say it must see
+        if getattr(self.run, "same_pt", None):
+            self.res.probes["c14.two_updates_of_a_market_with_one_publish_time"] += 1
         aborted = bool(self.res.probes.get("run.aborted_by_injection"))
         for agent, ss in zip(self.run.agents, sc["strategies"]):
             if aborted:
